@@ -63,7 +63,11 @@ func (c *FnCtx) builtin(fr *Frame, st *State, b *ssa.Builtin, args []Val, call *
 			if l, ok := c.sliceLen[x.E]; ok {
 				return &Val{T: types.Typ[types.Int], E: l}
 			}
-			return &Val{T: types.Typ[types.Int], E: c.sc.Define("len", sInt, "(s-len "+x.E+")")}
+			lt := c.sc.Define("len", sInt, "(s-len "+x.E+")")
+			if ub, ok := c.intUB["(s-len "+x.E+")"]; ok {
+				c.intUB[lt] = ub
+			}
+			return &Val{T: types.Typ[types.Int], E: lt}
 		case *types.Basic:
 			return &Val{T: types.Typ[types.Int], E: c.sc.Define("len", sInt, "(strlen "+x.E+")")}
 		case *types.Map:
@@ -210,7 +214,10 @@ func (c *FnCtx) uninterp(st *State, fname string, args []Val, resT *types.Tuple)
 		rt := resT.At(k).Type()
 		f := q(fmt.Sprintf("%s$%d", fname, k))
 		c.sc.Decl("uf:"+f, fmt.Sprintf("(declare-fun %s (%s) %s)", f, strings.Join(sorts, " "), c.ty.SortOf(rt)))
-		e := c.sc.Define("uf", c.ty.SortOf(rt), App(f, as...))
+		e := App(f, as...)
+		if st != nil {
+			e = c.sc.Define("uf", c.ty.SortOf(rt), e) // in specifications (st == nil) the term may mention bound variables
+		}
 		if len(as) == 0 {
 			e = f
 		}
@@ -382,6 +389,11 @@ func (c *FnCtx) invoke(fr *Frame, st *State, recv Val, m *types.Func, args []Val
 	o := c.obligation(st, "safe", "nilinvoke", "(not (= (i-tag "+recv.E+") 0))", pos)
 	o.Desc = "method call on nil interface value"
 	c.assume(st, "(not (= (i-tag "+recv.E+") 0))")
+	if isProtoreflectType(recv.T) {
+		// protoreflect accessors are read-only views: deterministic functions of the receiver (assumed)
+		c.assumed["protoreflect accessors are pure functions of their receiver"] = true
+		return c.uninterp(st, "inv$"+shortTypeName(recv.T)+"."+m.Name(), append([]Val{recv}, args...), resT)
+	}
 	if pm := c.eng.preludeInvoke(recv.T, m); pm != nil {
 		c.assumed["library contract: "+shortTypeName(recv.T)+"."+m.Name()] = true
 		return pm(c, fr, st, recv, m, args, pos)
@@ -513,4 +525,11 @@ func (c *FnCtx) closureTerm(fr *Frame, st *State, clo *Closure, params []Val) (r
 		}
 	}
 	return rvals, And(c.pureObs...)
+}
+
+func isProtoreflectType(t types.Type) bool {
+	if n, ok := t.(*types.Named); ok && n.Obj().Pkg() != nil {
+		return strings.HasSuffix(n.Obj().Pkg().Path(), "reflect/protoreflect")
+	}
+	return false
 }
